@@ -401,3 +401,194 @@ Proof.
   destruct (x_set_selection s _) as [e3| |] eqn:E3; cbn [bind] in Hb; try discriminate.
   eapply xchain_trans; [exact (x_set_selection_sound s _ _ E3)|]. exact (x_erase_selection_sound _ _ Hb).
 Qed.
+
+(* ================================================================================================================
+   stage 5 (the sound part): rotate_layer, scroll_area_up / down over the whole layer width *)
+Lemma x_rotate_layer_sound rtab e e' : x_rotate_layer rtab e = Ok e' -> xedit_chain e e'.
+Proof.
+  intro H. unfold x_rotate_layer in H. destruct (nth_error (xlayers (cur e)) (curl (xb (cur e)))) as [L|] eqn:Hn; [|discriminate].
+  destruct (layer_new (4, 0)%N (l_h L) (l_w L)) as [NL| |]; cbn [bind] in H; try discriminate.
+  set (NL' := fold_left _ _ NL) in H.
+  destruct (xpush_sound _ _ e (XRotate (curl (xb (cur e))) (l_lines L) (l_lines NL'))
+              (with_xb (cur e) (upd_layer (xb (cur e)) (curl (xb (cur e))) (fun L0 => rot_swap L0 (l_lines NL')))) (xstable_lclosed _ rotate_stable)) as (e1 & E1 & C1 & _).
+  { exists (curl (xb (cur e))), (l_lines NL'), L. split; [reflexivity|]. split; [exact Hn|apply xeqv_refl]. }
+  xfinish H E1 C1.
+Qed.
+
+Lemma x_scroll_area_whole_sound up e e' : x_scroll_area_whole up e = Ok e' -> xedit_chain e e'.
+Proof.
+  intro H. unfold x_scroll_area_whole in H. eapply xguarded_chain; [|exact H]. clear H e'. set (e0 := mkEs (cur e) (ustk e) []).
+  intros e2 Hb. cbv beta in Hb.
+  destruct (get_cur_layer (xb (cur e0))) as [[i L]|] eqn:Ec; [|discriminate].
+  destruct (get_cur_layer_some _ _ _ Ec) as [Hn _].
+  destruct (get_area (sel (xb (cur e0))) L) as [[[ax ay] aw] ah].
+  destruct (rect_is_empty (0, 0, aw, ah)); [injection Hb as <-; apply xchain_refl|].
+  destruct (l_w L <=? aw); [|discriminate].
+  destruct up.
+  - destruct (xpush_sound _ _ e0 (XScrollUp i) (with_xb (cur e0) (upd_layer (xb (cur e0)) i l_scroll_up)) (xstable_lclosed _ scroll_stable)) as (e1 & E1 & C1 & _).
+    { exists i, L. split; [exact Hn|]. left. split; [reflexivity|apply xeqv_refl]. }
+    xfinish Hb E1 C1.
+  - destruct (xpush_sound _ _ e0 (XScrollDown i) (with_xb (cur e0) (upd_layer (xb (cur e0)) i l_scroll_down)) (xstable_lclosed _ scroll_stable)) as (e1 & E1 & C1 & _).
+    { exists i, L. split; [exact Hn|]. right. split; [reflexivity|apply xeqv_refl]. }
+    xfinish Hb E1 C1.
+Qed.
+
+(* ================================================================================================================
+   the modelled operations on the full document, each with its known class *)
+(* the operations of Model/EditOps.v that read nothing but the layer document (resize_buffer and everything that reads the
+   selection mask or the font table have their own definitions on the full document) *)
+Inductive liftable : (E -> res E) -> Prop :=
+| l_set_char x y c : liftable (api_set_char x y c)
+| l_swap_char x1 y1 x2 y2 : liftable (api_swap_char x1 y1 x2 y2)
+| l_add_new_layer n : liftable (api_add_new_layer n)
+| l_remove_layer n : liftable (api_remove_layer n)
+| l_raise_layer n : liftable (api_raise_layer n)
+| l_lower_layer n : liftable (api_lower_layer n)
+| l_duplicate_layer n : liftable (api_duplicate_layer n)
+| l_clear_layer n : liftable (api_clear_layer n)
+| l_toggle_layer_visibility n : liftable (api_toggle_layer_visibility n)
+| l_move_layer x y : liftable (api_move_layer x y)
+| l_set_layer_size n w h : liftable (api_set_layer_size n w h)
+| l_set_selection s : liftable (api_set_selection s)
+| l_deselect : liftable api_deselect
+| l_area_op mutate : stays_inside mutate -> liftable (api_area_op mutate)
+| l_justify_left : liftable api_justify_left
+| l_justify_right : liftable api_justify_right
+| l_center : liftable api_center
+| l_make_layer_transparent : liftable api_make_layer_transparent
+| l_stamp_layer_down : liftable api_stamp_layer_down
+| l_ctl_cur n : liftable (ctl_cur n)
+| l_ctl_mirror b : liftable (ctl_mirror b)
+| l_ctl_caret x y : liftable (ctl_caret x y).
+
+Lemma liftable_sound f : liftable f -> bsound_edit f.
+Proof.
+  destruct 1; try (apply modelled_sound; constructor; assumption). apply api_stamp_layer_down_sound.
+Qed.
+
+Inductive xmodelled : (XE -> res XE) -> (xstate -> Prop) -> Prop :=
+| xm_lift f : liftable f -> xmodelled (lift_edit f) never
+| xm_flip_x ftabs : xmodelled (x_flip_x ftabs) never
+| xm_flip_y ftabs : xmodelled (x_flip_y ftabs) never
+| xm_resize_buffer w h : xmodelled (x_resize_buffer w h) known_sauce_size
+| xm_switch_to_palette p : xmodelled (x_switch_to_palette p) never
+| xm_update_sauce_data d : xmodelled (x_update_sauce_data d) never
+| xm_switch_to_font_page p : xmodelled (x_switch_to_font_page p) never
+| xm_set_font sv newf : xmodelled (x_set_font sv newf) known_setfont
+| xm_add_ansi_font page newf : xmodelled (x_add_ansi_font page newf) (known_addfont page)
+| xm_replace_font_usage a b : xmodelled (x_replace_font_usage a b) never
+| xm_change_font_slot a b : xmodelled (x_change_font_slot a b) (known_fontslot a b)
+| xm_remove_font f : xmodelled (x_remove_font f) never
+| xm_set_ice_mode conv mode : xmodelled (x_set_ice_mode_gen conv mode) never
+| xm_set_palette_mode plan mode : xmodelled (x_set_palette_mode_gen plan mode) never
+| xm_merge_layer_down n : xmodelled (x_merge_layer_down n) never
+| xm_anchor_layer : xmodelled x_anchor_layer never
+| xm_paste L : xmodelled (x_paste_clipboard_data L) never
+| xm_crop_rect r : xmodelled (x_crop_rect r) known_sauce_size
+| xm_crop : xmodelled x_crop known_sauce_size
+| xm_resize_buffer_layers w h : xmodelled (x_resize_buffer_layers w h) known_sauce_size
+| xm_clear_selection : xmodelled x_clear_selection never
+| xm_add_selection_to_mask : xmodelled x_add_selection_to_mask never
+| xm_inverse_selection : xmodelled x_inverse_selection never
+| xm_enumerate_selections f : xmodelled (x_enumerate_selections f) never
+| xm_erase_selection : xmodelled x_erase_selection never
+| xm_center_line : xmodelled x_center_line never
+| xm_justify_line_left : xmodelled x_justify_line_left never
+| xm_justify_line_right : xmodelled x_justify_line_right never
+| xm_erase_row : xmodelled x_erase_row never
+| xm_erase_row_to_start : xmodelled x_erase_row_to_start never
+| xm_erase_row_to_end : xmodelled x_erase_row_to_end never
+| xm_erase_column : xmodelled x_erase_column never
+| xm_erase_column_to_start : xmodelled x_erase_column_to_start never
+| xm_erase_column_to_end : xmodelled x_erase_column_to_end never
+| xm_rotate_layer rtab : xmodelled (x_rotate_layer rtab) never
+| xm_scroll_area_whole up : xmodelled (x_scroll_area_whole up) never.
+
+Lemma xlift_sound f : bsound_edit f -> forall e e', xlift f e = Ok e' -> xedit_chain e e'.
+Proof. exact (lift_edit_sound f). Qed.
+
+Theorem xmodelled_sound f K : xmodelled f K -> forall e e', ~ K (cur e) -> f e = Ok e' -> xedit_chain e e'.
+Proof.
+  destruct 1 as [f Hl| | | | | | | | | | | | | | | | | | | | | | | | | | | | | | | | | | |]; intros e e' HK H;
+  try solve [eauto using x_resize_buffer_sound, x_switch_to_palette_sound, x_update_sauce_data_sound, x_switch_to_font_page_sound,
+    x_set_font_sound, x_add_ansi_font_sound, x_replace_font_usage_sound, x_change_font_slot_sound, x_remove_font_sound,
+    x_set_ice_mode_gen_sound, x_set_palette_mode_gen_sound, x_merge_layer_down_sound, x_anchor_layer_sound, x_paste_clipboard_data_sound,
+    x_crop_rect_sound, x_crop_sound, x_resize_buffer_layers_sound, x_clear_selection_sound, x_add_selection_to_mask_sound,
+    x_inverse_selection_sound, x_enumerate_selections_sound, x_erase_selection_sound, x_rotate_layer_sound, x_scroll_area_whole_sound,
+    x_line_erase_sound].
+  - eapply lift_edit_sound; [apply liftable_sound; exact Hl|exact H].
+  - unfold x_flip_x in H. eapply lift_edit_sound; [apply api_flip_x_sound|exact H].
+  - unfold x_flip_y in H. eapply lift_edit_sound; [apply api_flip_y_sound|exact H].
+  - eapply (x_line_op_sound row_sel (xlift api_center)); [apply xlift_sound, api_center_sound|exact H].
+  - eapply (x_line_op_sound row_sel (xlift api_justify_left)); [apply xlift_sound, api_justify_left_sound|exact H].
+  - eapply (x_line_op_sound row_sel (xlift api_justify_right)); [apply xlift_sound, api_justify_right_sound|exact H].
+Qed.
+
+(* a history: every operation is modelled, is applied outside its known class, and reports Ok *)
+Inductive xrun : list (XE -> res XE) -> XE -> XE -> Prop :=
+| xrun_nil e : xrun [] e e
+| xrun_cons f K fs e e1 e2 : xmodelled f K -> ~ K (cur e) -> f e = Ok e1 -> xrun fs e1 e2 -> xrun (f :: fs) e e2.
+
+Lemma xrun_chain fs e e' : xrun fs e e' -> xedit_chain e e'.
+Proof.
+  induction 1 as [e|f K fs e e1 e2 Hm HK Hf Hr IH]; [apply xchain_refl|].
+  eapply xchain_trans; [eapply xmodelled_sound; eauto|exact IH].
+Qed.
+
+(* history_sound of Proofs/UndoProofs.v from a chain instead of a list of everywhere-sound edits *)
+Theorem x_history_proof : forall fs (e0 en : XE) d, fresh e0 -> xrun fs e0 en ->
+  let n := length (ustk en) in
+  exists tl, length tl = S n /\ rstk en = [] /\
+    xeqv (nth 0 tl d) (cur e0) /\ nth n tl d = cur en /\
+    forall w, exists e', run_ur xop_undo xop_redo w en = Ok e' /\ xeqv (cur e') (nth (walk w n n) tl d).
+Proof.
+  intros fs e0 en d Hf Hrun n.
+  pose proof (xrun_chain _ _ _ Hrun) as HC.
+  destruct (edit_chain_zip xop_undo xop_redo xeqv xeqv_refl xeqv_sym xeqv_trans _ _ _ _ _ (fresh_zip xop_undo xop_redo xeqv xeqv_refl _ Hf) HC)
+    as (mids & fut' & HZ & L & Hfut & H0).
+  rewrite app_nil_r in HZ. destruct Hf as [Hu0 Hr0]. rewrite Hu0 in L. cbn [length] in L. rewrite Nat.sub_0_r in L.
+  fold n in L.
+  assert (fut' = []) as -> by (destruct Hfut as [|[_ ?]]; [auto|congruence]).
+  assert (Hren : rstk en = []).
+  { destruct HZ as (_ & _ & Hr). destruct (rstk en); [reflexivity|cbn in Hr; tauto]. }
+  exists (timeline mids (cur en) []). unfold timeline.
+  split; [rewrite app_length, rev_length; cbn; lia|]. split; [exact Hren|].
+  split; [apply H0|]. split.
+  - rewrite <- L, <- (rev_length mids). apply nth_middle.
+  - intro w. destruct (interleaving_state xop_undo xop_redo xeqv w _ _ _ _ d HZ) as (e' & E & H).
+    exists e'. split; [exact E|]. cbn [length] in H. rewrite Nat.add_0_r, L in H. exact H.
+Qed.
+
+(* ================================================================================================================
+   witnesses of the known classes: inside the class the operation reports Ok and its undo does not restore the document *)
+Definition wit_base : estate := mkE 4 2 [mkLayer 0 true false false false false 0 0 0 4 2 (10, 0)%N []] 0 None false 0 0.
+Definition wit_doc (f : fonts) (sa : option sauce) (fm cfp : N) : XE :=
+  mkEs (mkX wit_base [0%N; 170%N] f sa 0 1 fm cfp (mkMask 4 2 [])) [] [].
+
+Definition undo_fails_to_restore (f : XE -> res XE) (K : xstate -> Prop) (e : XE) : Prop :=
+  K (cur e) /\ exists e1 e2, f e = Ok e1 /\ undo xop_undo e1 = Ok e2 /\ ~ xeqv (cur e2) (cur e).
+
+Lemma known_setfont_witness_proof : undo_fails_to_restore (x_set_font false (Some 8%N)) known_setfont (wit_doc [(0, 1); (2, 6)]%N None 3 2).
+Proof.
+  split; [split; [reflexivity|discriminate]|]. eexists _, _. split; [vm_compute; reflexivity|]. split; [vm_compute; reflexivity|].
+  intros [_ (_ & Hf & _)]. specialize (Hf 2%N). vm_compute in Hf. discriminate.
+Qed.
+
+Lemma known_addfont_witness_proof : undo_fails_to_restore (x_add_ansi_font 2 (Some 8%N)) (known_addfont 2) (wit_doc [(0, 1); (2, 6)]%N None 3 0).
+Proof.
+  split; [unfold known_addfont; vm_compute; discriminate|]. eexists _, _. split; [vm_compute; reflexivity|]. split; [vm_compute; reflexivity|].
+  intros [_ (_ & Hf & _)]. specialize (Hf 2%N). vm_compute in Hf. discriminate.
+Qed.
+
+Lemma known_fontslot_witness_proof : undo_fails_to_restore (x_change_font_slot 2 3) (known_fontslot 2 3) (wit_doc [(0, 1); (2, 6); (3, 7)]%N None 3 0).
+Proof.
+  split; [unfold known_fontslot; vm_compute; repeat split; discriminate|]. eexists _, _. split; [vm_compute; reflexivity|]. split; [vm_compute; reflexivity|].
+  intros [_ (_ & Hf & _)]. specialize (Hf 3%N). vm_compute in Hf. discriminate.
+Qed.
+
+Lemma known_sauce_size_witness_proof : undo_fails_to_restore (x_resize_buffer 3 1) known_sauce_size (wit_doc [(0, 1)]%N (Some (mkSauce 7 3 5)) 0 0).
+Proof.
+  split; [unfold known_sauce_size, sauce_in_sync; vm_compute; intros [H _]; discriminate|].
+  eexists _, _. split; [vm_compute; reflexivity|]. split; [vm_compute; reflexivity|].
+  intros [_ (_ & _ & Hs & _)]. vm_compute in Hs. discriminate.
+Qed.
